@@ -46,6 +46,105 @@ def const(src, name, path):
     return vals
 
 
+# ---------------------------------------------------------------------------------------------
+# A tiny Rust-expression -> Lean translator for per-base closures / const fns: integer literals,
+# one identifier (the parameter), + - < <= == >= >, `if c { a } else { b }`,
+# `match x { lit => e, ..., _ => e }`, calls of already translated functions, `e as T` (dropped).
+# Anything else raises, so an unexpected rewrite of these functions is reported, not guessed.
+class RsExpr:
+    def __init__(self, text, param, funcs):
+        self.toks = re.findall(r"=>|<=|>=|==|[A-Za-z_][A-Za-z_0-9]*|\d[\d_]*(?:u8|u32|u64|usize)?|[{}(),;<>+\-|_]", strip_comments(text))
+        self.i = 0
+        self.param = param
+        self.funcs = funcs
+
+    def peek(self):
+        return self.toks[self.i] if self.i < len(self.toks) else None
+
+    def eat(self, t=None):
+        tok = self.peek()
+        if tok is None or (t is not None and tok != t):
+            raise ValueError("translator: expected %r, got %r" % (t, tok))
+        self.i += 1
+        return tok
+
+    def expr(self):
+        if self.peek() == "if":
+            self.eat("if")
+            c = self.cmp()
+            self.eat("{"); a = self.expr(); self.eat("}")
+            self.eat("else")
+            self.eat("{"); b = self.expr(); self.eat("}")
+            return "(if %s then %s else %s)" % (c, a, b)
+        if self.peek() == "match":
+            self.eat("match")
+            scrut = self.cmp()
+            self.eat("{")
+            arms = []
+            while self.peek() != "}":
+                pat = self.eat()
+                self.eat("=>")
+                e = self.expr()
+                if self.peek() == ",":
+                    self.eat(",")
+                arms.append((pat, e))
+            self.eat("}")
+            if not arms or arms[-1][0] != "_":
+                raise ValueError("translator: match without a final wildcard arm")
+            out = arms[-1][1]
+            for pat, e in reversed(arms[:-1]):
+                if not re.fullmatch(r"\d+", pat):
+                    raise ValueError("translator: unsupported pattern %r" % pat)
+                out = "(if %s = %s then %s else %s)" % (scrut, pat, e, out)
+            return out
+        if self.peek() == "{":
+            self.eat("{"); e = self.expr(); self.eat("}")
+            return e
+        return self.cmp()
+
+    def cmp(self):
+        a = self.add()
+        if self.peek() in ("<", "<=", "==", ">=", ">"):
+            op = self.eat()
+            b = self.add()
+            return "(%s %s %s)" % (a, {"==": "="}.get(op, op), b)
+        return a
+
+    def add(self):
+        a = self.atom()
+        while self.peek() in ("+", "-"):
+            op = self.eat()
+            b = self.atom()
+            a = "(%s %s %s)" % (a, op, b)
+        return a
+
+    def atom(self):
+        t = self.eat()
+        if re.fullmatch(r"\d[\d_]*(?:u8|u32|u64|usize)?", t):
+            e = re.sub(r"(u8|u32|u64|usize)$", "", t).replace("_", "")
+        elif t == "(":
+            e = self.expr(); self.eat(")")
+        elif t == self.param:
+            e = "b"
+        elif t in self.funcs and self.peek() == "(":
+            self.eat("("); a = self.expr(); self.eat(")")
+            e = "(%s %s)" % (self.funcs[t], a)
+        else:
+            raise ValueError("translator: unsupported token %r" % t)
+        while self.peek() == "as":
+            self.eat("as"); self.eat()
+        return e
+
+
+def translate_fn(body, param, funcs):
+    p = RsExpr(body, param, funcs)
+    e = p.expr()
+    if p.peek() is not None:
+        raise ValueError("translator: trailing tokens %r" % p.toks[p.i:p.i + 5])
+    return e
+
+
+
 def main():
     out = []
     w = out.append
@@ -156,6 +255,31 @@ def main():
             raise ValueError("CollectionVarInt constants missing: %s" % [n for n in names if n not in env])
         w("/-- collection.rs `CollectionVarInt::%s`. -/" % ", ".join(names))
         w("def %s : List Nat := %s" % (group, [env[n] for n in names]))
+    # --- per-base reverse-complement rules, TRANSLATED from the source text
+    k = read("ragc-core/src/kmer.rs")
+    m = re.search(r"pub const fn reverse_complement\(base: u64\) -> u64 \{(.*?)\n\}", k, flags=re.S)
+    if not m:
+        raise ValueError("kmer.rs reverse_complement not found")
+    w("/-- kmer.rs `reverse_complement` (translated from the source). -/")
+    w("def kmerRcBase (b : Nat) : Nat := " + translate_fn(m.group(1), "base", {}))
+    funcs = {"reverse_complement": "kmerRcBase"}
+    m = re.search(r"fn reverse_complement_sequence\(seq: &\[u8\]\) -> Vec<u8> \{(.*?)\n\}", a, flags=re.S)
+    mm = m and re.search(r"\.map\(\|&base\|(.*)\)\s*\.collect\(\)", m.group(1), flags=re.S)
+    if not mm:
+        raise ValueError("agc_compressor.rs reverse_complement_sequence: per-base closure not found")
+    w("/-- agc_compressor.rs `reverse_complement_sequence`: the per-base rule (translated). -/")
+    w("def writerRcBase (b : Nat) : Nat := " + translate_fn(mm.group(1), "base", funcs))
+    m = re.search(r"let segment_data_rc: Vec<u8> = segment\s*\.data\s*\.iter\(\)\s*\.rev\(\)\s*\.map\(\|&base\|(.*?)\)\s*\.collect\(\);\s*RawBufferedSegment", a, flags=re.S)
+    if not m:
+        raise ValueError("agc_compressor.rs worker data_rc precomputation not found")
+    w("/-- agc_compressor.rs worker_thread: per-base rule of the precomputed `data_rc` (translated). -/")
+    w("def workerRcBase (b : Nat) : Nat := " + translate_fn(m.group(1), "base", funcs))
+    m = re.search(r"fn reverse_complement_segment\(segment: &\[u8\]\) -> Contig \{(.*?)\n    \}", d, flags=re.S)
+    mm = m and re.search(r"\.map\(\|&base\|(.*)\)\s*\.collect\(\)", m.group(1), flags=re.S)
+    if not mm:
+        raise ValueError("decompressor.rs reverse_complement_segment: per-base closure not found")
+    w("/-- decompressor.rs `reverse_complement_segment`: the per-base rule (translated). -/")
+    w("def readerRcBase (b : Nat) : Nat := " + translate_fn(mm.group(1), "base", funcs))
     w("")
     w("end Ragc.Gen")
     text = "\n".join(out) + "\n"
